@@ -13,7 +13,8 @@ def _resname(i):
     return "R" + "ABCDEFGH"[i]
 
 
-def gen_restype(g, name, atypes, idx, allow_vs=True, allow_angles=True, max_atoms=4, shape=None):
+def gen_restype(g, name, atypes, idx, allow_vs=True, allow_angles=True, max_atoms=4, shape=None, impossible_p=0.0,
+                vs_p=0.25):
     """One residue type: 1..max_atoms uniquely named atoms joined by bonds/constraints
     (tree or ring), optional angles, optional virtual site."""
     n = g.randint(1, max_atoms)
@@ -33,7 +34,12 @@ def gen_restype(g, name, atypes, idx, allow_vs=True, allow_angles=True, max_atom
             if n >= 3:
                 pairs.append((0, n - 1))
     blen = round(g.uniform(0.25, 0.45), 3)
+    impossible = shape == "ring" and n == 3 and g.random() < impossible_p
     for (a, b) in pairs:
+        if impossible:
+            # bond lengths that violate the triangle inequality: optimisation can never succeed
+            bonds.append([a, b, 1.0 if (a, b) == (0, n - 1) else 0.2, 5000])
+            continue
         if g.random() < 0.2:
             constraints.append([a, b, blen])
         else:
@@ -51,7 +57,7 @@ def gen_restype(g, name, atypes, idx, allow_vs=True, allow_angles=True, max_atom
                 angles.append([nb[0], b, nb[1], g.choice([100, 120, 140, 180]), 50])
                 break
     vsites = []
-    if allow_vs and n >= 2 and g.random() < 0.25:
+    if allow_vs and n >= 2 and g.random() < (0.9 if impossible else vs_p):
         kind = g.choice(["n1", "n1", "2"] + (["3"] if n >= 3 else []))
         site = {"name": f"{prefix}V", "atype": g.choice(atypes)}
         if kind == "n1":
@@ -63,8 +69,8 @@ def gen_restype(g, name, atypes, idx, allow_vs=True, allow_angles=True, max_atom
             vsites.append({"kind": "3", "funct": 1, "from": [0, 1, 2],
                            "params": [round(g.uniform(0.1, 0.4), 3), round(g.uniform(0.1, 0.4), 3)]})
         atoms.append(site)
-    return {"name": name, "atoms": atoms, "bonds": bonds, "constraints": constraints,
-            "angles": angles, "vsites": vsites, "blen": blen}
+    return {"vs_zero_mass": bool(vsites) and g.random() < 0.5, "name": name, "atoms": atoms, "bonds": bonds, "constraints": constraints,
+            "angles": angles, "vsites": vsites, "blen": blen, "impossible": impossible}
 
 
 # ----------------------------------------------------------------------------- molecule types
@@ -119,8 +125,13 @@ def expand_moltype(mt, restypes):
     first_atom = {}
     res_atom_ids = {}
     restypes = dict(restypes, **mt.get("restype_override", {}))
+    per_res = mt.get("residue_override", {})
+
+    def rtype(r, rname):
+        return per_res.get(str(r)) or restypes[rname]
+
     for r, rname in enumerate(mt["residues"]):
-        rt = restypes[rname]
+        rt = rtype(r, rname)
         ids = []
         for a in rt["atoms"]:
             aid = len(atoms) + 1
@@ -130,7 +141,7 @@ def expand_moltype(mt, restypes):
     sec = {"bonds": [], "constraints": [], "angles": [], "virtual_sitesn": [],
            "virtual_sites2": [], "virtual_sites3": []}
     for r, rname in enumerate(mt["residues"]):
-        rt = restypes[rname]
+        rt = rtype(r, rname)
         ids = res_atom_ids[r]
         for a, b, l, k in rt["bonds"]:
             sec["bonds"].append(f"{ids[a]} {ids[b]} 1 {l} {k}")
@@ -152,7 +163,7 @@ def expand_moltype(mt, restypes):
     for (ra, rb) in mt["edges"]:
         # link: last real atom of the lower residue - first atom of the higher residue
         ra, rb = sorted((ra, rb))
-        rta = restypes[mt["residues"][ra]]
+        rta = rtype(ra, mt["residues"][ra])
         nreal_a = len(rta["atoms"]) - len(rta["vsites"])
         a = res_atom_ids[ra][nreal_a - 1]
         b = res_atom_ids[rb][0]
@@ -160,13 +171,27 @@ def expand_moltype(mt, restypes):
     return atoms, sec
 
 
+def zero_mass_names(mt, restypes):
+    """(resname, atomname) of virtual sites that carry an explicit mass of 0 (GROMACS convention)"""
+    out = set()
+    rts = dict(restypes, **mt.get("restype_override", {}))
+    for rname in set(mt["residues"]):
+        rt = rts[rname]
+        if rt.get("vs_zero_mass"):
+            nreal = len(rt["atoms"]) - len(rt["vsites"])
+            for a in rt["atoms"][nreal:]:
+                out.add((rname, a["name"]))
+    return out
+
+
 def render_itp(mt, restypes, atype_mass, with_mass=True):
     atoms, sec = expand_moltype(mt, restypes)
     out = ["[ moleculetype ]", f"{mt['name']} {mt['nrexcl']}", "[ atoms ]"]
+    zero = zero_mass_names(mt, restypes)
     for aid, atype, resid, resname, aname in atoms:
         line = f"{aid} {atype} {resid} {resname} {aname} {aid} 0.0"
         if with_mass:
-            line += f" {atype_mass[atype]}"
+            line += f" {0.0 if (resname, aname) in zero else atype_mass[atype]}"
         out.append(line)
     for name in ("bonds", "constraints", "angles", "virtual_sitesn", "virtual_sites2", "virtual_sites3"):
         if sec[name]:
@@ -214,7 +239,13 @@ def ground_truth(spec):
 
 def total_mass(spec):
     mass = {a["name"]: a["mass"] for a in spec["atypes"]}
-    return sum(mass[a[3]] for _, atoms in ground_truth(spec) for a in atoms)
+    mts = {m["name"]: m for m in spec["moltypes"]}
+    total = 0.0
+    for molname, atoms in ground_truth(spec):
+        zero = zero_mass_names(mts[molname], spec["restypes"]) if spec.get("with_mass", True) else set()
+        for (resid, resname, aname, atype) in atoms:
+            total += 0.0 if (resname, aname) in zero else mass[atype]
+    return total
 
 
 # ----------------------------------------------------------------------------- system spec
@@ -232,7 +263,9 @@ def gen_system(g, profile):
         rn = _resname(i)
         restypes[rn] = gen_restype(g, rn, anames, i, allow_vs=profile.get("vsites", True),
                                    allow_angles=profile.get("angles", True),
-                                   max_atoms=profile.get("max_atoms", 4))
+                                   max_atoms=profile.get("max_atoms", 4),
+                                   shape=g.choice(profile["res_shapes"]) if profile.get("res_shapes") else None,
+                                   impossible_p=profile.get("impossible_p", 0.0), vs_p=profile.get("vs_p", 0.25))
     nmt = g.randint(*profile.get("n_moltypes", (1, 3)))
     moltypes = []
     shapes = profile.get("shapes")
